@@ -39,6 +39,8 @@ pub const MARKERS: &[MarkerInfo] = &[
     MarkerInfo { name: "dom", regex: "([\\p{Ll}]|\\-)+?", accept: &["foo", "my-site"], reject: &["f00", "a.b"] },
     MarkerInfo { name: "tld", regex: "(com|net|org)", accept: &["com", "net"], reject: &["io", "co"] },
     MarkerInfo { name: "m", regex: "[a-z]+", accept: &["abc", "z"], reject: &["1", ""] },
+    MarkerInfo { name: "w", regex: "\\w+", accept: &["caf\u{e9}", "x1", "\u{664}2"], reject: &["-", "a-b"] },
+    MarkerInfo { name: "d", regex: "\\d+", accept: &["12", "\u{664}"], reject: &["x", "1x"] },
     MarkerInfo { name: "bad", regex: "([a-z", accept: &["x"], reject: &["x"] },
 ];
 
@@ -99,8 +101,8 @@ pub fn instantiate(t: &str, pickn: u16, reject_one: bool) -> String {
 
 // ---------------------------------------------------------------------------------------------
 // trigger pools
-pub const HOSTS: &[&str] = &["example.com", "Example.COM", "www.example.com", "example.org", "@sub.example.com", "www.@dom.@tld", "xn--bcher-kva.example", "@sub.example.org", "b\u{fc}cher.@tld", "b\u{e4}cker.@tld"];
-pub const REQ_HOSTS: &[&str] = &["example.com", "EXAMPLE.com", "Example.COM", "www.example.com", "example.org", "sub1.example.com", "www.foo.com", "www.my-site.net", "other.test", "a.example.org", "SUB1.example.com", "xn--bcher-kva.example", "b\u{fc}cher.com", "b\u{e4}cker.net", "B\u{dc}CHER.com"];
+pub const HOSTS: &[&str] = &["example.com", "Example.COM", "www.example.com", "example.org", "@sub.example.com", "www.@dom.@tld", "xn--bcher-kva.example", "@sub.example.org", "b\u{fc}cher.@tld", "b\u{e4}cker.@tld", "@w.example.net", "@d.example.net"];
+pub const REQ_HOSTS: &[&str] = &["example.com", "EXAMPLE.com", "Example.COM", "www.example.com", "example.org", "sub1.example.com", "www.foo.com", "www.my-site.net", "other.test", "a.example.org", "SUB1.example.com", "xn--bcher-kva.example", "b\u{fc}cher.com", "b\u{e4}cker.net", "B\u{dc}CHER.com", "caf\u{e9}.example.net", "\u{664}.example.net", "x1.example.net"];
 
 pub struct CidrInfo {
     pub cidr: &'static str,
@@ -667,6 +669,19 @@ pub fn derive_request(rules: &[RuleSpec], cfg: &ConfigSpec, c: &RequestChoice) -
     }
     q.uri = uri;
     q
+}
+
+/// Ids that stress the tie-break on the id: integers written in several ways, mixed with text ids.
+pub const TRICKY_IDS: &[&str] = &["7", "07", "10", "9", "1a", "007", "+7", "70", "a1", "A1", "r10", "r9", "r-9", "7a"];
+
+/// Rename the rules (consistently) to the tricky ids; rules beyond the pool keep their name.
+pub fn rename_tricky(rules: &mut [RuleSpec], offset: usize) {
+    for (i, r) in rules.iter_mut().enumerate() {
+        let k = i + offset % TRICKY_IDS.len();
+        if k < TRICKY_IDS.len() {
+            r.id = TRICKY_IDS[k].to_string();
+        }
+    }
 }
 
 #[derive(Clone, Debug, Serialize, Deserialize, PartialEq)]
